@@ -367,3 +367,14 @@ pub proof fn lemma_byte_ext(x: u8, y: u8)
     assert(lowbit(x, 6) == lowbit(y, 6)); assert(lowbit(x, 7) == lowbit(y, 7));
     lemma_low_bits_determine(x, y);
 }
+
+// ---- hex export
+pub uninterp spec fn hexc(n: u32) -> char;     // the hex digit of n < 16 (char::from_digit)
+pub open spec fn hex_of(g: Seq<(u8, u32)>, n: int) -> Seq<char>
+    decreases n
+{
+    if n <= 0 || n > g.len() { Seq::empty() } else {
+        let (val, len) = g[n - 1];
+        hex_of(g, n - 1) + (if len > 4 { seq![hexc(val as u32 >> 4u32), hexc(val as u32 & 0xfu32)] } else { seq![hexc(val as u32 & 0xfu32)] })
+    }
+}
